@@ -37,7 +37,8 @@ TrBuildEnd ==
   /\ (Ev.ok => StateGuards({"C09", "C02", "C10"}))
 
 TrCSet == Is("MSet") /\ CSet(Ev.aid, Ev.ok) /\ Consume
-TrCSetEval == Is("MEval") /\ CSetEval(Ev.ok) /\ Consume
+NoC09 == "C09" \notin Strict
+TrCSetEval == Is("MEval") /\ (\E keep \in BOOLEAN : (keep => NoC09) /\ CSetEval(Ev.ok, keep)) /\ Consume
 \* executions of the named deviation D2 are behaviours only while C09 is not being judged
 TrStaleBuildEval == Is("MEval") /\ "C09" \notin Strict /\ StaleBuildEval(Ev.ok) /\ Consume
 TrStaleCSetEval == Is("MEval") /\ "C09" \notin Strict /\ StaleCSetEval(Ev.ok) /\ Consume
@@ -56,13 +57,18 @@ TrCJacEnd ==
   \* no Jacobian unless the cache is present and every derivative evaluated (C03/C09)
   /\ G({"C09", "C03"}, Ev.present = CJacPresent)
 
-TrFitStart == Is("FitStart") /\ FitStart(Ev.patience, Ev.stats) /\ Consume
+TrFitStart ==
+  /\ Is("FitStart")
+  /\ \E sj \in BOOLEAN : /\ FitStart(Ev.patience, Ev.stats, sj)
+                          \* the optimizer gets residuals at the start iff the cache is present
+                          /\ G({"C09", "C04"}, sj = (own # -1))
+  /\ Consume
 TrDeriv == Is("MDeriv") /\ Deriv(Ev.k, Ev.ok) /\ Consume
 TrTrialSet == Is("MSet") /\ TrialSet(Ev.aid, Ev.ok) /\ Consume
 TrEvalAfterFailedSet == Is("MEval") /\ EvalAfterFailedSet(Ev.ok) /\ Consume
-TrTrialEval == Is("MEval") /\ (\E dec \in Decisions : TrialEval(Ev.ok, dec)) /\ Consume
+TrTrialEval == Is("MEval") /\ (\E dec \in Decisions, keep \in BOOLEAN : (keep => NoC09) /\ TrialEval(Ev.ok, dec, keep)) /\ Consume
 TrResetSet == Is("MSet") /\ ResetSet(Ev.aid, Ev.ok) /\ Consume
-TrResetEval == Is("MEval") /\ ResetEval(Ev.ok) /\ Consume
+TrResetEval == Is("MEval") /\ (\E keep \in BOOLEAN : (keep => NoC09) /\ ResetEval(Ev.ok, keep)) /\ Consume
 
 \* guards on what fit() hands back; evaluated in the state BEFORE the step
 EndGuards ==
